@@ -10,6 +10,24 @@ COMMON_TRUSTED = [
 NOT_APPLICABLE = {}
 
 PROPS = {
+    "C15": dict(
+        level_text="Proof: Parser.termOf/SetPlaceholder, unDoubleQuote (the escape regexp), the operand level of the reader with the placeholder queue (term0, term0Atom, functionalNotation, list, Parser.Term; empty operator table, pre-tokenised input) and convertAssign* with explicit integer widths are modelled in Lean. Kernel-checked for ALL inputs: un-quoting the double-quoted literal of any string gives the string back (C15_unDoubleQuote_escape); for every Go value (all integer widths, floats, strings over all of Unicode, nested slices) and every double_quotes setting termOf yields exactly the term the reader produces for the value's literal (C15_termOf_is_literal, C15_string_is_data); parsing commutes with instantiating the argument queue, i.e. the result for any arguments is one template computed from the text alone with the arguments plugged into holes, never inspected (C15_placeholder_is_data, C15_placeholder_template, C15_query_template); the number of arguments a text accepts is unique, more is 'too many arguments' (C15_placeholder_count; 'fewer gives exactly not-enough-arguments' is kept as an open statement), unsupported kinds are rejected before parsing (C15_unsupported_is_error); for every destination type of the property convertAssign stores a value that is exactly the answer's and within the type, or fails (C15_scan_exact_or_error, C15_scan_out_of_range_is_error, C15_scan_unsupported_is_error); the pinned conversions violate this (C15_scan_exact_or_error_pinned_witness = D15, repaired in the repo). Tied to the Go code by c15.args (API with placeholders vs the text with the values' literals written by an independent printer, compared with ==/2 inside Prolog, vs model and specification) and c15.scan (every destination type x answers on and around each range).",
+        level_note="Trusted: Lean kernel; the hand-written model (checked by differential runs, not proved); the reader is modelled at operand level with an empty operator table and on tokens (lexer and operators belong to C05/C06; the stream exercises the real lexer+parser, operator-free templates only); Go strings are assumed valid UTF-8; int is 64 bits; float32 destinations round (recorded by C15_scan_float32_rounds, not part of the property's list); whether a list is held as charList/codeList (and hence scans into a string) is a parameter of the model.",
+        technique="Lean 4 structural induction over Go values/terms/fuel (naturality of the parser in its argument queue; literal reader; exactness of conversions) + differential runs against the real API with an independent literal printer",
+        lean_module="PrologVerif.Properties.C15",
+        ns="PrologVerif.C15",
+        streams=[dict(name="c15.args", quick=4000, thorough=40000),
+                 dict(name="c15.scan", quick=6000, thorough=60000)],
+        rule="c15.args: systematic part = every string of a 100-entry list (quotes, backslashes, '.', ':-', '%', newlines, NUL, controls, BOM, non-BMP, syntax-looking text), every boundary integer of every width, floats incl. +-0, subnormals, extremes, each as p(?) under chars/codes/atom; random part = operator-free templates (compounds, lists with tails, parentheses, double-quoted tokens) with 0..8 placeholders and random values (strings from the list or over random Unicode scalars, ints of all widths, float64/float32, typed slices/arrays, nested slices, unsupported kinds), 1 in 8 with a count mismatch; non-trivial = at least one placeholder filled and the literal comparison ran. c15.scan: every integer/any/string/float destination x 32 boundary integers (struct and map path, also inside slices), plus random destination types (30) x answers, 70% of them of the kind the destination expects; non-trivial = Scan stored a value. One PRNG (VERIF_SEED); distinct = distinct case text",
+        trusted=[
+            "modelled (hand-written, correspondence-checked): engine/parser.go SetPlaceholder, termOf, unDoubleQuote/doubleQuotedUnescape, term0, term0Atom (placeholder step), functionalNotation, list, openClose, integer, Parser.Term (end and left-over checks); solutions.go convertAssign, convertAssignAny/String/Int*/Float*/Slice",
+            "not modelled: the lexer and the operator part of the reader (C05/C06); Scan's struct/map reflection (observed: both paths are driven); Scanner/TermString; invalid UTF-8 in Go strings",
+            "the literal printer of the harness (strings: only double quote and backslash escaped; numbers; bracket lists) is independent of the code under test; it is mirrored by Model/Api `escape`/`litToks`",
+        ],
+        modelled={"hand_modelled": ["Parser.SetPlaceholder", "Parser.termOf", "unDoubleQuote", "Parser.term0", "Parser.term0Atom", "Parser.functionalNotation", "Parser.list", "Parser.openClose", "Parser.Term", "integer", "convertAssign*"],
+                  "regenerated": [], "observed_only": ["Lexer", "operators in templates", "Solutions.Scan reflection", "Solution.Scan"]},
+        assumptions=["Go strings passed as arguments are valid UTF-8", "int is 64 bits wide", "templates are operator-free terms in canonical syntax (the reader model has an empty operator table)"],
+    ),
     "C12": dict(
         level_text="Proof: the more/next handshake between Solutions.Next/Scan/Err/Close (solutions.go) and the search goroutine of QueryContext (interpreter.go) is modelled in Lean as a small-step transition system (consumer pc, producer pc, the two channels with Go's buffered/rendezvous/close semantics, the query abstracted as an arbitrary outcome stream Nat -> answer|exhausted|error). For ALL outcome streams (finite, erroring, infinite), ALL call sequences and ALL schedules (every enabled goroutine step is allowed) the kernel checks: an inductive invariant with five boundary shapes (C12_boundary_invariant, C12_no_panic), deadlock freedom and a step bound of 8 per call under every schedule (C12_no_block, C12_no_block_bounded, C12_maximal_run_finished), refinement of the sequential iterator specification Spec/Iter (C12_refines_iter, C12_refines_iter_finished, C12_schedule_independent), that after Close no search step happens and the producer exits within 2 of its own steps (C12_close_stops), that the producer never searches ahead (C12_no_speculation), and independence of two Solutions (C12_interleave). The protocol of the pinned tree is kept as a variant and shown to deadlock (C12_no_block_pinned_witness = D14, repaired in the repo). The model is tied to the Go code by c12.seq (exhaustive call sequences up to length 5, thorough 7, x 8 query shapes + random longer ones, each call under a 2 s watchdog on the real Solutions; return values, tick counter = goals run, goroutine count) and c12.inter (two open Solutions of one interpreter, interleaved).",
         level_note="Trusted: Lean kernel; the hand-written transition system mirrors the Go code and Go's channel semantics (checked by the differential streams, not proved); one 'searching' step stands for the whole search for the next outcome, which is assumed to terminate (a diverging goal such as 'repeat, fail' makes Next diverge, that is not a protocol block); context cancellation is C13; scheduler fairness/real time are observed by the watchdog only.",
